@@ -482,6 +482,70 @@ fn heavy_light<H: HistT>(prop: &str, rep: &mut Report) {
     }
 }
 
+/// from_ranges with a single offence at every position (C12), for the sizes TLC does not enumerate in
+/// the quick tier: a sorted list with one descent at position k, one NaN at position k, both, a list cut
+/// to k values, and surplus values behind a valid list.  Expected by FromRanges of Histogram.tla: the error
+/// of the first offending position; NotEnoughRanges only if nothing offends before the list ends.
+fn build_scan<H: HistT>(rep: &mut Report) {
+    let len = H::LEN;
+    let base: Vec<f64> = (0..=len + 2).map(|i| i as f64 * 0.5 - 3.0).collect();
+    let mut case = |list: Vec<f64>, want: Result<(), &'static str>, what: String| {
+        rep.behaviours += 1;
+        rep.evaluations += 1;
+        let got = std::panic::catch_unwind(std::panic::AssertUnwindSafe(|| H::from_ranges(list.clone())));
+        let bad = match (&got, &want) {
+            (Ok(Ok(h)), Ok(())) => !(h.ranges().iter().zip(list.iter()).all(|(a, b)| a.to_bits() == b.to_bits()) && h.bins().iter().all(|&c| c == 0)),
+            (Ok(Err(e)), Err(w)) => e != w,
+            _ => true,
+        };
+        if bad {
+            let g = match &got { Ok(Ok(_)) => "Ok".to_string(), Ok(Err(e)) => e.to_string(), Err(_) => "panic".to_string() };
+            rep.violation(json!({"property": "C12", "family": "buildscan", "type": H::NAME, "embedding": "tokens",
+                "history": {"case": what, "len": len}, "accessor": "from_ranges",
+                "what": format!("from_ranges: {} gives {} but the first offending position calls for {:?}", what, g, want),
+                "signature": format!("C12|{}|buildscan", H::NAME)}));
+        }
+    };
+    case(base[..=len].to_vec(), Ok(()), "a valid list".into());
+    case(base.clone(), Ok(()), "a valid list with two surplus values".into());
+    for k in 0..=len {
+        if k >= 1 {
+            let mut v = base[..=len].to_vec();
+            v[k] = v[k - 1] - 1.0;
+            // everything after the descent stays sorted relative to v[k-1]: the only offence is at k ... unless a later
+            // value is below v[k]; it is not, the tail continues the base
+            case(v.clone(), Err("NotSorted"), format!("descent at position {k}"));
+            if k + 1 <= len {
+                let mut w = v.clone();
+                w[k + 1] = f64::NAN;
+                case(w, Err("NotSorted"), format!("descent at position {k}, NaN behind it"));
+            }
+            if k >= 2 {
+                let mut w = v.clone();
+                w[k - 2] = f64::NAN;
+                case(w, Err("NaN"), format!("NaN at position {}, descent at {k}", k - 2));
+            }
+            let mut cut = v.clone();
+            cut.truncate(k + 1);
+            if k < len {
+                case(cut, Err("NotSorted"), format!("list of {} values with a descent at its last position", k + 1));
+            }
+        }
+        let mut v = base[..=len].to_vec();
+        v[k] = f64::NAN;
+        case(v, Err("NaN"), format!("NaN at position {k}"));
+        case(base[..k].to_vec(), Err("NotEnoughRanges"), format!("a sorted list of {k} values"));
+    }
+}
+
+pub fn direct_buildscan(rep: &mut Report) {
+    build_scan::<h1::Histogram>(rep);
+    build_scan::<h4::Histogram>(rep);
+    build_scan::<average::Histogram10>(rep);
+    build_scan::<h100::Histogram>(rep);
+    rep.sample(json!({"family": "buildscan", "sizes": [1, 4, 10, 100]}));
+}
+
 pub fn direct_histbig(prop: &str, seed: u64, reps: usize, rep: &mut Report) {
     heavy_light::<average::Histogram10>(prop, rep);
     heavy_light::<h100::Histogram>(prop, rep);
